@@ -310,7 +310,7 @@ CFG_TEMPLATE = """CONSTANTS Paths = {paths}
           EmitOn = {emit}
           Sim = FALSE
 INIT Init
-NEXT Next
+NEXT NextAll
 {invs}
 CHECK_DEADLOCK FALSE
 """
@@ -554,7 +554,7 @@ def selftest(ctx):
                     fake.append({"a": s["a"], "sidecar": None,
                                  "ans": {kind: {"rows": EXPECTED[(cur % 3 + 1 if s["pred"]["stale"][k] else cur, kind)]} for k, kind in enumerate(KINDS)}})
                 else:
-                    fake.append({"a": s["a"], "sidecar": None})
+                    fake.append({"a": s["a"], "sidecar": None, "len": 0})
             n, _ = nviol([base], [fake])
             nbad += 1 if n else 0
         expect(f"seeded cache design '{name}'", nbad > 0, f"(violations on {nbad} histories)")
